@@ -67,7 +67,7 @@ func (g *layoutGen) str() []byte {
 func (g *layoutGen) record(b []byte) []byte {
 	r := g.r
 	var body []byte
-	body = append(body, byte(r.Intn(4)))       // attributes
+	body = append(body, byte(r.Intn(4)))        // attributes
 	body = putVarint(body, int64(r.Intn(2000))) // timestampDelta
 	body = putVarint(body, int64(r.Intn(10)))   // offsetDelta
 	kv := func() {
